@@ -75,3 +75,71 @@ package messages
 //@ func (*messages.Ticket).GetPACType(t, kt, sname, l) (isPAC, pac, err)
 //@   pure
 //@   trusted_frame decoding works on copies; the ticket, keytab and settings are only read
+
+// ---- client side: a KDC reply is accepted only if it answers the request sent (property C09, RFC 4120 3.1.5 / 3.3.4)
+
+//@ func (*messages.EncKDCRepPart).Unmarshal(e, b) (err)
+//@   modifies *e
+//@   trusted_frame the decoded structure is filled through the reflection-driven ASN.1 codec
+
+// The enc-part is decrypted (usage 3) with the client's long-term key: the password-derived key when a password is
+// set (its derivation is property C08), otherwise the keytab entry matching the reply's cname/crealm/kvno/etype.
+//@ func (*messages.ASRep).DecryptEncPart(k, c) (key, err)
+//@   modifies k.KDCRepFields.DecryptedEncPart
+//@   trusted_frame see EncKDCRepPart.Unmarshal
+//@   ensures err == nil ==> krb_dec_ok(key.KeyType, bytes(key.KeyValue), 3, bytes(k.EncPart.Cipher))
+//@   ensures err == nil && c.password == "" ==> exists j int :: 0 <= j && j < len(c.keytab.Entries)
+//@        && kmatch(c.keytab.Entries[j], k.CName, k.CRealm, k.EncPart.KVNO, k.EncPart.EType) && key == c.keytab.Entries[j].Key
+//@   ensures err != nil ==> k.DecryptedEncPart == old(k.DecryptedEncPart)
+
+//@ func (*messages.ASRep).Verify(k, cfg, creds, asReq) (ok, err)
+//@   modifies k.KDCRepFields.DecryptedEncPart
+//@   trusted_frame see EncKDCRepPart.Unmarshal
+//@   ensures ok ==> err == nil
+//@   ensures !ok ==> err != nil
+//@   ensures ok ==> names_equal(k.CName, asReq.ReqBody.CName)
+//@   ensures ok ==> k.CRealm == asReq.ReqBody.Realm
+//@   ensures ok && creds.password == "" ==> exists j int :: 0 <= j && j < len(creds.keytab.Entries)
+//@        && kmatch(creds.keytab.Entries[j], k.CName, k.CRealm, k.EncPart.KVNO, k.EncPart.EType)
+//@        && krb_dec_ok(creds.keytab.Entries[j].Key.KeyType, bytes(creds.keytab.Entries[j].Key.KeyValue), 3, bytes(k.EncPart.Cipher))
+//@   ensures ok ==> k.DecryptedEncPart.Nonce == asReq.ReqBody.Nonce
+//@   ensures ok ==> names_equal(k.DecryptedEncPart.SName, asReq.ReqBody.SName)
+//@   ensures ok ==> k.DecryptedEncPart.SRealm == asReq.ReqBody.Realm
+//@   ensures ok && len(asReq.ReqBody.Addresses) > 0 ==> len(k.DecryptedEncPart.CAddr) == len(asReq.ReqBody.Addresses)
+//@   ensures ok && len(asReq.ReqBody.Addresses) > 0 ==> forall x int :: 0 <= x && x < len(asReq.ReqBody.Addresses) ==> addr_in(k.DecryptedEncPart.CAddr, asReq.ReqBody.Addresses[x])
+//@   ensures ok ==> !((now#1).Sub(k.DecryptedEncPart.AuthTime) > cfg.LibDefaults.Clockskew) && !(k.DecryptedEncPart.AuthTime.Sub(now#1) > cfg.LibDefaults.Clockskew)
+
+// The session-key decryption of a TGS-REP uses key usage 8.
+//@ func (*messages.TGSRep).DecryptEncPart(k, key) (err)
+//@   modifies k.KDCRepFields.DecryptedEncPart
+//@   trusted_frame see EncKDCRepPart.Unmarshal
+//@   ensures err == nil ==> krb_dec_ok(key.KeyType, bytes(key.KeyValue), 8, bytes(k.EncPart.Cipher))
+//@   ensures err != nil ==> k.DecryptedEncPart == old(k.DecryptedEncPart)
+
+//@ func (*messages.TGSRep).Verify(k, cfg, tgsReq) (ok, err)
+//@   pure
+//@   ensures ok ==> err == nil
+//@   ensures !ok ==> err != nil
+//@   ensures ok ==> names_equal(k.CName, tgsReq.ReqBody.CName)
+//@   ensures ok ==> k.Ticket.Realm == tgsReq.ReqBody.Realm
+//@   ensures ok ==> k.DecryptedEncPart.Nonce == tgsReq.ReqBody.Nonce
+//@   ensures ok ==> k.DecryptedEncPart.SRealm == tgsReq.ReqBody.Realm
+//@   ensures ok ==> forall i int :: 0 <= i && i < len(k.DecryptedEncPart.CAddr) ==> addr_in(tgsReq.ReqBody.Addresses, k.DecryptedEncPart.CAddr[i])
+//@   ensures ok ==> (!((now#1).Sub(k.DecryptedEncPart.StartTime) > cfg.LibDefaults.Clockskew) && !(k.DecryptedEncPart.StartTime.Sub(now#2) > cfg.LibDefaults.Clockskew))
+//@        || (!((now#3).Sub(k.DecryptedEncPart.AuthTime) > cfg.LibDefaults.Clockskew) && !(k.DecryptedEncPart.AuthTime.Sub(now#4) > cfg.LibDefaults.Clockskew))
+//@   loop 1 invariant -1 <= rangeindex && rangeindex < len(k.DecryptedEncPart.CAddr)
+//@   loop 1 invariant forall i int :: 0 <= i && i <= rangeindex ==> addr_in(tgsReq.ReqBody.Addresses, k.DecryptedEncPart.CAddr[i])
+
+//@ func (*messages.KDCReqBody).Marshal(k) (b, err)
+//@   pure
+//@   trusted_frame encoding reads the request body and builds fresh shadow structures
+//@ func (*messages.ASReq).Marshal(k) (b, err)
+//@   pure
+//@   trusted_frame see KDCReqBody.Marshal
+
+//@ func (*messages.ASRep).Unmarshal(k, b) (err)
+//@   modifies *k
+//@   trusted_frame the decoded structure is filled through the reflection-driven ASN.1 codec
+//@ func (*messages.TGSRep).Unmarshal(k, b) (err)
+//@   modifies *k
+//@   trusted_frame the decoded structure is filled through the reflection-driven ASN.1 codec
